@@ -158,7 +158,7 @@ def kani_phase(prop, tier, known, res, work, only_set):
         else:
             plan.append((o, "deciding", None))
     if natives:
-        native_bounded_phase(prop, natives, units, features, res, known_by_ob)
+        native_bounded_phase(prop, natives, units, features, res, known_by_ob, tier)
     if not plan:
         return
 
@@ -281,7 +281,7 @@ def confirm_and_report(prop, o, single, crate_dir, features, res, units, note=""
     return True
 
 
-def native_bounded_phase(prop, natives, units, features, res, known_by_ob=None):
+def native_bounded_phase(prop, natives, units, features, res, known_by_ob=None, tier='quick'):
     """Bounded stand-ins executed natively: plain functions with concrete enumeration loops and asserts, compiled by
     rustc against the staged real crate (debug profile, overflow checks on). Labelled bounded, never counted as proof."""
     cid = prop["id"]
@@ -297,8 +297,9 @@ def native_bounded_phase(prop, natives, units, features, res, known_by_ob=None):
     from .common import run as _run, base_env
     env = base_env()
     env["RUST_BACKTRACE"] = "0"
+    env["VERIF_TIER"] = tier   # native boxes widen their bounds under the thorough tier
     t0 = time.time()
-    rc, out, secs, killed = _run(cmd, cwd=crate_dir, timeout=1800, env=env)
+    rc, out, secs, killed = _run(cmd, cwd=crate_dir, timeout=3600, env=env)
     res.backend_cmds.append(" ".join(cmd))
     k = out.find("Running unittests")
     shown = out[k:] if k >= 0 else out
